@@ -77,6 +77,9 @@ type Config struct {
 
 	// TTL is the time that key written with ttl will live
 	TTL time.Duration
+
+	// EventsPrefix is the prefix of the keys written with ttl, no key expires if it's empty
+	EventsPrefix []byte
 }
 
 // Range implements Scanner interface
@@ -104,12 +107,13 @@ func (r *scanner) rangeWithLimit(ctx context.Context, start []byte, end []byte, 
 	}
 	receiver := &commonResultReceiver{limit: int(limit)}
 	w := newWorker(workerConfig{
-		idx:       0,
-		partition: storage.Partition{Start: start, End: end},
-		tso:       tso,
-		revision:  revision,
-		tombstone: r.config.Tombstone,
-		compact:   false,
+		idx:          0,
+		partition:    storage.Partition{Start: start, End: end},
+		tso:          tso,
+		revision:     revision,
+		tombstone:    r.config.Tombstone,
+		compact:      false,
+		eventsPrefix: r.config.EventsPrefix,
 	}, r.store, r.coder, r.metricCli)
 	_, err = w.run(ctx, receiver)
 	if err != nil {
@@ -275,6 +279,7 @@ func (r *scanner) scan(ctx context.Context, start []byte, end []byte, revision u
 				compact:         compact,
 				tombstone:       r.config.Tombstone,
 				timeoutRevision: timeoutRevision,
+				eventsPrefix:    r.config.EventsPrefix,
 			}, store, r.coder, r.metricCli)
 
 			// run worker
@@ -337,6 +342,9 @@ type workerConfig struct {
 
 	// timeoutRevision indicate the revision that kvs with ttl were updated at is timeout
 	timeoutRevision uint64
+
+	// eventsPrefix indicate the prefix of the kvs with ttl
+	eventsPrefix []byte
 }
 
 func newWorker(conf workerConfig, store storage.KvStorage, coder coder.Coder, metricCli metrics.Metrics) *worker {
@@ -571,7 +579,7 @@ func (w *worker) compactIfExpired(iter storage.Iter, rawKey []byte, revision uin
 		w.timeoutRevision == 0 {
 		return false, nil
 	}
-	if bytes.Contains(rawKey, []byte("/events/")) {
+	if len(w.eventsPrefix) > 0 && bytes.HasPrefix(rawKey, w.eventsPrefix) {
 		//? consider two type of compact now:
 		//? 1. delete directly from storage engine (use this one right now)
 		//? 2. set tombstone and delete util next compaction loop
